@@ -77,9 +77,9 @@ CLAIMED = {
             "for an empty table (dangling current id, missing manifest list or manifest raise); every manifest of the list and every "
             "file of the listing is read (loop invariants, no skip on error); with verification on, the rows are parsed from the very "
             "bytes whose SHA-256 was compared, a mismatch raises CorruptDataError, and the default is ON.",
-            "Trusted: T-store fault model, T-arrow (parsers raise on bytes that are not parquet), T-codec (manifest readers raise on "
-            "bytes they cannot parse - the Avro-then-JSON fallback inside FileManager.read_manifest_* is applied at this contract and "
-            "not yet verified itself), T-hash (SHA-256 injective). Which exceptions fastavro/pyarrow raise for which damage is assumed.",
+            "Trusted: T-store fault model, T-arrow (parsers raise on bytes that are not parquet), T-codec (fastavro / json raise on bytes they cannot parse; the readers' own Avro-then-JSON fallback is verified by the "
+            "FALLBACK units: a normal return means the Avro reader delivered every record or the bytes are a legacy JSON document "
+            "that carries the entry list - a fail-open found there, '{}' read as an empty manifest list, was repaired in /repo), T-hash (SHA-256 injective). Which exceptions fastavro/pyarrow raise for which damage is assumed.",
             "DESIGN.md 4/C14"),
     "C02": ("Proof, under a rely condition in which other agents may advance the pointer between any two metadata reads, that each "
             "read API obtains its file list from exactly ONE metadata read (one pointer read -> immutable metadata -> immutable "
